@@ -293,7 +293,7 @@ def scenarios(draw, max_user=4, max_sources=3, failures=True, searchers=True, bo
     # alias: a requested file name that differs from the module it holds (+ optional second module in the file)
     if aliases and draw(st.integers(0, 3)) == 0:
         target = draw(st.sampled_from(user))
-        alias = 'z' + target.lower().replace('-mib', '') + 'file'
+        alias = 'Z' + target.replace('-MIB', '') + 'FILE'
         extras = []
         if multi_file and n > 1 and draw(st.booleans()):
             extras = [x for x in user if x != target][:1]
@@ -303,6 +303,11 @@ def scenarios(draw, max_user=4, max_sources=3, failures=True, searchers=True, bo
         if alias not in requested:
             requested.append(alias)
         universe.append(alias)
+        # a module may also IMPORT from the file name (incl. the module that lives in that file)
+        if draw(st.integers(0, 2)) == 0:
+            importer = draw(st.sampled_from(user))
+            if alias not in imports[importer]:
+                imports[importer] = imports[importer] + [alias]
     codegen = {}
     writer = {}
     for m in universe:
